@@ -387,7 +387,8 @@ func initDesignateNotaryRoleAsLeaderTick(ctx context.Context, prm enableNotaryPr
 
 			var invalidSignatureCounter int
 
-			for i := range prm.committee[1:] {
+			// the leader is the 1st member, the others publish their signatures in own domains
+			for i := 1; i < len(prm.committee); i++ {
 				domain := designateNotarySignatureDomainForMember(i)
 
 				rec, err := lookupNNSDomainRecord(invkr, prm.nnsOnChainAddress, domain)
@@ -483,7 +484,13 @@ func initDesignateNotaryRoleAsLeaderTick(ctx context.Context, prm enableNotaryPr
 				make([]byte, extraLen)...)
 			buf := tx.Scripts[1].InvocationScript[initialLen:]
 
-			for _, sig := range mCommitteeIndexToSignature {
+			// signatures must follow the order of keys in the multi-signature script
+			for i := 1; i < len(prm.committee); i++ {
+				sig, ok := mCommitteeIndexToSignature[i]
+				if !ok {
+					continue
+				}
+
 				buf[0] = byte(opcode.PUSHDATA1)
 				buf[1] = byte(len(sig))
 				buf = buf[2:]
